@@ -547,7 +547,7 @@ func checkSelectPairing(c *Ctx, rp *packages.Package) {
 	ast.Inspect(ef.Body, func(n ast.Node) bool {
 		if rs, ok := n.(*ast.RangeStmt); ok && exprStr(rs.X) == "c.sops" {
 			s := strings.ReplaceAll(nodeSrc(rs.Body), " ", "")
-			if strings.Contains(s, "op==selOp") && strings.Contains(s, "c.sops=append(c.sops[:i],c.sops[i+1:]...)") {
+			if (strings.Contains(s, "op==selOp") || strings.Contains(s, "selOp==op")) && strings.Contains(s, "c.sops=append(c.sops[:i],c.sops[i+1:]...)") {
 				removeOK = true
 			}
 		}
